@@ -20,6 +20,8 @@ def run(chk):
     chk.rule("FLOAT.double-only", "no float-typed expression and no single-precision math function in any library function")
     chk.rule("POLY.intersect", "GetSegmentIntersectPt (both precision variants): as a real-number formula the stored point lies on the lines through both "
              "segments, and 'parallel' is reported iff the cross product of the directions vanishes (identity of polynomial normal forms)")
+    chk.rule("POLY.topx", "TopX is the x of the line through bot and top at the given y (with dx = GetDx(bot, top) as SetDx stores it); every shortcut "
+             "return agrees with the general formula under its guard (identity of polynomial normal forms)")
     chk.rule("T.closed", "IsContributingClosed(fill, clip, own path type, wind_cnt cell, wind_cnt2 cell) == "
              "[the edge separates own-filled from own-unfilled AND flipping own membership changes op(subject, clip)], "
              "for every reachable cell; abstract interpretation of the function's AST, exhaustive over the partition")
@@ -34,6 +36,7 @@ def run(chk):
         e3.table_crossing_dispatch(db, chk, cfg)
         e9.rule_int64_product(db, chk, cfg)
         e3.ip_on_edge_rule(db, chk, cfg)
+        e14.rule_topx(db, chk, cfg)
         rec = db.record("Active")
         for fd in rec.fields:
             if fd.get("name") in ("wind_cnt", "wind_cnt2"):
